@@ -56,6 +56,17 @@ def case(ctx, rng, idx, state):
     adversarial = rng.random() < 0.35
     if adversarial:
         calcs["stub"] = monitors.make_stub_calculator(salt=int(rng.integers(1 << 30)))
+    deep = (idx % 6 == 5)
+    if deep:
+        # deep history: only the stub, which makes deeper cells look more important, so that the same region is refined
+        # again and again and K-point weights become tiny (1/(N*mesh^(3L)))
+        calcs = {"stub_deep": monitors.make_stub_calculator(salt=int(rng.integers(1 << 30)), level_boost=100.0)}
+        use_irred = False
+        symmetrize = False
+        storage = ["memory", "allow_restart", "dump_results"][int(rng.integers(3))]
+        adpt_mesh = int(rng.integers(3, 5))
+        adpt_fac = 1
+        niter = int(rng.integers(6, 9))
     wit = dict(info, NKdiv=div, NKFFT=fft, use_irred_kpt=use_irred, symmetrize=symmetrize, storage=storage,
                adpt_num_iter=niter, adpt_mesh=adpt_mesh, adpt_fac=adpt_fac, calculators=sorted(calcs), Efermi=Ef)
 
@@ -118,6 +129,10 @@ def case(ctx, rng, idx, state):
     ctx.count(f"storage_{storage}")
     ctx.count("histories_with_merges", int(merged > 0))
     ctx.count("adversarial_histories", int(adversarial))
+    ctx.count("deep_histories", int(deep))
+    alive = [float(K.factor) for K in live.get("K_list", []) if K.factor > 0]
+    if alive and min(alive) < 1e-8:
+        ctx.count("histories_reaching_weights_below_1e-8")
     ctx.sample(dict(group=info["group"], tr=info["tr"], NKdiv=div, NKFFT=fft, use_irred_kpt=use_irred, storage=storage, adpt_mesh=adpt_mesh,
                     adpt_fac=adpt_fac, calculators=sorted(calcs), history=hist, divides=ndiv, merged=merged,
                     events_sample=mon.events[:6]))
@@ -134,5 +149,5 @@ if __name__ == "__main__":
         assumptions=["per-K results recomputed by the harness with the same calculators on fresh data objects",
                      "tolerance 1e-9 of sum_K |factor_K| max|result_K| (natural scale; never the judged value itself)"],
         required_counters=("mon:divide_calls", "storage_memory", "storage_allow_restart", "storage_dump_results", "storage_discard",
-                           "saved_files_reloaded", "mon:dump_result_calls", "mon:clear_result_calls"),
+                           "saved_files_reloaded", "mon:dump_result_calls", "mon:clear_result_calls", "histories_reaching_weights_below_1e-8"),
     )
